@@ -110,7 +110,11 @@ func (m *MetricManager) ReloadMetricsConfig() error {
 		}
 	}
 
-	m.metricManagerActive = true
+	// The flag is read without the mutex on every transaction; a manager that
+	// is already active must not write it again on each reload.
+	if !m.metricManagerActive {
+		m.metricManagerActive = true
+	}
 	log.Info().Msg("Metrics manager reloaded")
 	return nil
 }
